@@ -412,3 +412,43 @@ def chain_sources(c: int, mode: str = "marked") -> Iterator[Tuple[str, str]]:
     """(label, source) for all nesting chains with exactly c compounds."""
     for i, sk in enumerate(chain_blocks(c, False)):
         yield f"CH{c}/{mode}/{i}", render(sk, mode)
+
+
+# ---------------------------------------------------------------------------------------
+# XC(n): and/or chains - every operator pattern over n oracle operands, unparenthesised (Python's precedence
+# groups them) and with one parenthesised sub-range; in the if / return / assign carriers.
+
+def chain_exprs(n: int, parens: bool = True) -> Iterator[str]:
+    import itertools as _it
+    for ops in _it.product(("and", "or"), repeat=n - 1):
+        toks = ["v(%d)" % (i + 1) for i in range(n)]
+        yield " ".join(t if j == 0 else f"{ops[j - 1]} {t}" for j, t in enumerate(toks))
+        if not parens:
+            continue
+        for i in range(n):
+            for j in range(i + 1, n):
+                if i == 0 and j == n - 1:
+                    continue
+                parts = []
+                for k, t in enumerate(toks):
+                    s = t
+                    if k == i:
+                        s = "(" + s
+                    if k == j:
+                        s = s + ")"
+                    parts.append(s if k == 0 else f"{ops[k - 1]} {s}")
+                yield " ".join(parts)
+
+
+XC_CARRIERS = {
+    "if": "def f():\n    if {E}:\n        return c(90)\n    return c(91)\n",
+    "return": "def f():\n    return {E}\n",
+    "assign_in_loop": "def f():\n    for x in it(80):\n        y = {E}\n        c(90, y)\n    return c(91)\n",
+}
+
+
+def boolchain_programs(max_n: int, max_paren_n: int) -> Iterator[Tuple[str, str]]:
+    for n in range(2, max_n + 1):
+        for e in chain_exprs(n, parens=n <= max_paren_n):
+            for cname, tmpl in XC_CARRIERS.items():
+                yield f"XC{n}/{cname}/{e}", tmpl.replace("{E}", e)
